@@ -91,7 +91,13 @@ class DependentType(type):
         raise NotImplementedError()
 
     def codegen(self):
-        return CodeGen("{this}.check({arg})", this=self)
+        cg = CodeGen("{this}.check({arg})", this=self)
+        if is_dependent(self.bound):
+            # The bound has a condition of its own, to evaluate first
+            return combine(
+                "({} and {})", [generate_checking_code(self.bound), cg]
+            )
+        return cg
 
     def __type_order__(self, other):
         if isinstance(other, DependentType):
